@@ -947,3 +947,20 @@ mod test {
         }
     }
 }
+
+// ===== verification hook (feature `verif-hooks`, off by default; add-only) =====
+
+#[cfg(feature = "verif-hooks")]
+impl Decoder {
+    /// Read-only view of the dynamic table for the out-of-tree verification
+    /// harness: entries (newest first) as (name, value) octets, `size`, `max_size`.
+    pub fn verif_table(&self) -> (Vec<(Vec<u8>, Vec<u8>)>, usize, usize) {
+        let entries = self
+            .table
+            .entries
+            .iter()
+            .map(|h| (h.name().as_slice().to_vec(), h.value_slice().to_vec()))
+            .collect();
+        (entries, self.table.size, self.table.max_size)
+    }
+}
